@@ -103,7 +103,7 @@ def fieldSat (c : Cfg) (name : Str) (tag : Option Str) (isSlice : Bool) (k : Opt
       else
         let o : Opts := effOpts po
         depOK o key m &&
-        match lookupKey c key m with
+        match lookupKey c (optInherit po) key m with
         | .error _ => false
         | .ok none =>
           if !o.default.isEmpty then dflt o.default v
@@ -286,8 +286,8 @@ def fieldOK (c : Cfg) (name : Str) (tag : Option Str) (isSlice : Bool) (m : Obj)
     | .ok (key, po) =>
       depOK (effOpts po) key m &&
       (key = "-".toList ||
-       (!optOutside po &&
-        match lookupKey c key m with
+       (
+        match lookupKey c (optInherit po) key m with
         | .error _ => false
         | .ok none =>
           if !(effOpts po).default.isEmpty then okDflt (effOpts po).default
